@@ -1,6 +1,7 @@
 import Verif.Proofs.Step
 import Verif.Facts.CpuNow
 import Verif.Facts.CpuEntries
+import Verif.Proofs.PathStores
 /-
   C01 — Every implemented opcode has its architected effect on registers, flags, memory.
 
@@ -44,6 +45,18 @@ theorem C01_step_except (model : CpuModel) (r : Regs) (opc : Byte) (i : Instr)
   rw [h2] at h1
   exact h1
 
+/-- The same as a statement about executions: fix the bytes the bus returns (any list `o`; it selects one
+    path through the trees).  Whenever the specification defines that path, the implemented step makes
+    along it exactly the specification's stores: the same number, in the same order, at the same addresses,
+    with the same values (outside the mask PHP leaves open).  Used by C10: a trap or port sees one call per
+    architected store, with the architected byte — for read-modify-write instructions the modified value. -/
+theorem C01_path_stores (model : CpuModel) (r : Regs) (opc : Byte) (i : Instr)
+    (hd : Spec.decode model opc = some i) (o : List Byte)
+    (hdef : SProg.pathDefined o ((Spec.stepDev knownDev model r).next opc) = true) :
+    SProg.storesMatch (SProg.pathStores o ((plainM (stepNow model) r).next opc))
+      (SProg.pathStores o ((Spec.stepDev knownDev model r).next opc)) :=
+  SProg.Rel.stores_match _ _ o (C01_step_partial model r opc i hd) hdef
+
 /-- the deviation is exactly one (model, opcode) pair -/
 theorem C01_deviation_is_bit_imm (model : CpuModel) (opc : Byte) :
     knownDev model opc ≠ 0 → model = .m65C02 ∧ opc = 0x89 := by
@@ -66,6 +79,11 @@ example : ¬ SProg.Rel RegsRel
     (.store 0x10 1 0 (.ret (⟨3, false⟩, default)))
     (.store 0x10 2 0 (.ret (⟨3, false, 0⟩, default))) := by
   simp [SProg.Rel]
+
+-- non-vacuity of C01_path_stores: INC $1234 with the bus answering $34 $12 (operand) and $7F (the byte):
+-- the specification's path is defined and makes exactly one store, of the modified value $80, at $1234
+example : SProg.pathDefined [0x34, 0x12, 0x7F] ((Spec.stepDev knownDev .m6502 default).next 0xEE) = true := by decide
+example : SProg.pathStores [0x34, 0x12, 0x7F] ((Spec.stepDev knownDev .m6502 default).next 0xEE) = [(0x1234, 0x80, 0)] := by decide
 
 -- non-vacuity: the hypothesis is met by 150 + 209 opcodes
 example : Spec.decode .m6502 0xA9 = some ⟨.LDA, .imm, 2, false⟩ := rfl
